@@ -48,32 +48,54 @@ PROPS["C03"] = dict(
 )
 
 PROPS["C09"] = dict(
-    level_text="WORK IN PROGRESS",
-    level_note="WORK IN PROGRESS",
+    level_text="Theorems (Props/C09.lean) prove for the Lean model of the request encoder (QUERY, PREPARE, EXECUTE with/without result-metadata id, BATCH, STARTUP, REGISTER, OPTIONS, AUTH_RESPONSE; every subset of the optional fields; any value list with null/unset; any batch shape): frame_valid (version 4, flags = compression|tracing bits, spec opcode, u32 length = payload size), parse_encode (an independent parser written from the CQL v4 spec reads the emitted frame back to exactly the request: text/id, consistency, serial consistency, page size, paging state, timestamp, skip-metadata, values in order, batch statements in order with their values), compressed_body (payload decompresses to the uncompressed body, from the hypothesis decompress(compress b)=b), oversize_refused + representable_accepted (the encoder succeeds exactly on requests that fit a v4 frame: statements < 2^31 B, ids/strings < 2^16 B, <= 65535 values/statements, one value list per statement; otherwise an error, never truncation). Opcodes, flag bits, consistency/batch codes are re-extracted from the Rust source on every run (tools/extract_tables.py) and proved equal to the protocol literals. The model is tied to scylla-cql by a differential run through the public API with an independent Rust-side spec parser as oracle.",
+    level_note="Trusted: Lean kernel + {propext, Classical.choice, Quot.sound}; hand-written model Model/Request.lean + Model/WirePrim.lean (tie = byte-exact differential run against SerializedRequest::make through the public API, plus a model-independent protocol parser in harness/src/c09.rs as oracle); the regex extractor tools/extract_tables.py (fails closed). LZ4/Snappy block codecs are parameters of the model (assumed to invert; checked on every compressed case by decompressing with the same crates). Bodies >= 4 GiB ((len-9) as u32 cast) are outside the theorems' hypothesis and cannot be built here. STARTUP map order is an explicit argument (checker mode: any permutation).",
     lean_modules=["ScyllaVerif.Props.C09"],
     tables=True,
-    rule="distinct case lines whose implementation output is a frame or an error kind",
+    rule="case = (request kind, compression, tracing, stream id, fields...); distinct case lines whose implementation output is a frame (`ok ...`) or an error kind count as non-trivial",
     trivial=lambda c, o: o in ("bad-case",),
     out_kind=lambda o: " ".join(w for w in o.split(" ")[:4] if not (len(w) > 24 or w.lstrip("-").isdigit())) if o.startswith("err") else o.split(" ", 1)[0],
-    trusted=[],
-    assumptions=[],
-    partial=[],
+    trusted=[
+        "Model/Request.lean transcribes frame/mod.rs:70-112, 273-323, request/query.rs:49-56, 120-176, execute.rs:74-90, batch.rs:63-159, 195-213, prepare.rs, startup.rs, register.rs, auth_response.rs, options.rs, serialize/row.rs:594-615 (add_value), writers.rs:104-131; Model/WirePrim.lean transcribes frame/types.rs write_* (checked u16 / i32 length conversions)",
+        "Model/ReqParse.lean is the specification side: a parser of CQL v4 request frames written from native_protocol_v4.spec (+ ScyllaDB's result-metadata-id extension of EXECUTE) with literal constants; it imports nothing from the encoder model",
+        "tools/extract_tables.py copies request/response opcodes, frame/QUERY/BATCH flag bits, consistency, batch type and kind codes, null/unset markers, event names and the header layout of SerializedRequest::make from the Rust text into Generated/Constants.lean on every run (regex-based, fails closed)",
+        "LZ4 / Snappy block codecs (lz4_flex, snap) are parameters of the model; the driver instantiates them with the block the implementation produced (header, flags, length field, LZ4 length prefix and the decompressed body are still compared); HashMap iteration order of STARTUP is read off the implementation's frame and must be a permutation of the requested entries",
+        "SerializedValues are built in the harness with add_value on blob-typed cells (null = None, unset = MaybeUnset::Unset); 2^31-byte inputs (`biglen` cases) are lazily mapped zero pages and only the model's length guard is run on them",
+    ],
+    assumptions=[
+        "frame_valid / parse_encode / compressed_body: payload below 2^32 bytes (the `(len - 9) as u32` cast; frame_length_field_is_cast states the unconditional modulo form) and, for LZ4, uncompressed body below 2^32 bytes",
+        "compressed_body: unlz4 (lz4 b) |b| = b and snappy b = c -> unsnappy c = b (explicit hypotheses, not axioms)",
+        "page size is an i32, timestamps i64, stream id i16 (the Rust types)",
+    ],
+    partial=[
+        "Batch::do_serialize's per-statement TooManyValues branch (> 65535 values written by one RawBatchValues row) is modelled but not exercised by the harness: with Vec<SerializedValues> the count is capped earlier by add_value; the RawBatchValuesAdapter path of the scylla crate is not driven",
+        "session-level capture of frames through the mock node (timestamps / page sizes chosen by the session layer) is not part of this check; the frame layer is driven directly through SerializedRequest::make",
+        "accepted inputs just below 2^31 bytes are not executed (they would copy 2 GiB); only the refusal at 2^31 is",
+    ],
     chunk=800,
 )
 
 PROPS["C16"] = dict(
-    level_text="Theorems (Props/C16.lean) about a generic interpreter of the code the derive macros generate, for every struct descriptor, every database field list and every value assignment (see `theorems` in the evidence). The interpreter is tied to scylla-macros by a differential run of ~50 structs compiled with the real derive macros (descriptor and struct generated from one table) over all permutations / missing / excess / duplicated / retyped columns and null patterns, with a model-independent oracle (value at its column's position, round trip, documented accept/reject rule, declared order).",
-    level_note="Trusted: Lean kernel + {propext, Classical.choice, Quot.sound}; hand-written interpreter Model/Derive.lean (tie = differential harness on the fixed family; macro expansion itself is not modelled). Field values are abstract payloads (typed encoding is C01).",
+    level_text="Theorems (Props/C16.lean) about a generic interpreter of the code the derive macros generate, for EVERY struct descriptor (any number of fields, any attribute combination passing the macro's name-collision check), every database field list and every value assignment: by-name UDT serialization writes each bound field's value at its column's database position, nulls (or nothing, at the end) elsewhere (serValueByName_position / _unmatched_null); it succeeds exactly when every listed column is acceptable (value fits the type; excess column iff not forbid_excess_udt_fields) and every field without allow_missing/skip has a column (serValueByName_accepts_iff, _excess), a missing required field is always an error wherever it is declared - the F7 shape included (serValueByName_missing_required); acceptance and the cell at each column's position do not depend on the database order (serValueByName_perm_accepts / _perm_cells, tcValueByName_perm); the by-name UDT type check accepts exactly: acceptable columns, no bound field listed twice, required fields listed (tcValueByName_accepts_iff); by-name UDT deserialization fills each field from the like-named column (skip / missing allow_missing -> default, null with default_when_null -> default) (deserValueByName_spec); value -> cells -> value is the identity in any database order (byname_roundtrip); by-name row serialization is characterised exactly, cells position by position (serRowByName_iff); the ordered UDT flavor accepts only subsequences of the declared names in declared order containing every required field, excess only at the end and only without forbid (svOrdered_sound, dvTcOrd_sound, dvTcOrd_declared). The interpreter is tied to scylla-macros by a differential run of 50 structs compiled with the real derive macros (descriptor and struct generated from ONE table) over all permutations of up to 6 columns, every subset missing, excess / duplicated / retyped columns at every position, null patterns, truncated cell lists, with a model-independent oracle (value at its column's position, round trip, documented accept/reject rule, missing required field never dropped, declared order for the ordered flavor).",
+    level_note="Trusted: Lean kernel + {propext, Classical.choice, Quot.sound}; hand-written interpreter Model/Derive.lean (tie = differential harness on the fixed family; macro expansion itself is not modelled). Field values are abstract payloads (typed encoding is C01). Proved for the UDT derives and by-name SerializeRow; DeserializeRow, ordered rows, skip_name_checks and flatten are tied and oracle-checked differentially only (see partial).",
     lean_modules=["ScyllaVerif.Props.C16"],
     rule="case = (trait, struct descriptor, database column list, values or cells); distinct case lines count as non-trivial unless the output is bad-case",
     trivial=lambda c, o: o.startswith("bad-case"),
     out_kind=lambda o: " ".join(o.split(" ")[:3]) if o.startswith("err") else o.split(" ", 1)[0],
     trusted=[
-        "Model/Derive.lean transcribes serialize/value.rs:261-553, serialize/row.rs:203-472, _macro_internal.rs:141-310, deserialize/value.rs:226-898, deserialize/row.rs:175-670 as an interpreter over a struct descriptor",
-        "value level kept abstract: i32 = 4-byte payload, String = ASCII bytes, Option None = null (typed encodings: C01)",
+        "Model/Derive.lean transcribes serialize/value.rs:261-553, serialize/row.rs:203-472, _macro_internal.rs:141-310, deserialize/value.rs:226-898, deserialize/row.rs:175-670 as an interpreter over a struct descriptor; loops are structural recursions returning the cells written from the current column on; `saved_cql_field` + iterator are one list",
+        "value level kept abstract: i32 = 4-byte payload, String = ASCII bytes (UTF-8 validation not modelled), Option None = null (typed encodings: C01)",
+        "the derive macros' compile-time validation (name collisions, skip_name_checks restrictions) is represented by the hypothesis ValidNames; the family table and descriptor strings come from the same macro_rules tokens (harness/src/c16_structs.rs)",
     ],
-    assumptions=[],
-    partial=[],
+    assumptions=[
+        "ValidNames: non-skipped fields have pairwise distinct database names (enforced by the macros at compile time)",
+        "byname_roundtrip: database names distinct, column types equal the like-named fields' types, values well-typed (None only for Option, i32 payload 4 bytes)",
+    ],
+    partial=[
+        "DeserializeRow (by name and ordered), ordered SerializeRow, skip_name_checks and #[scylla(flatten)] are modelled (Model/Derive.lean: tcRow*/deRow*/srOrdered/serRowByNameN/serRowOrderedN) and checked differentially + by the harness oracle, but have no theorem yet",
+        "ordered flavor: soundness (only declared-order subsequences are accepted) and acceptance of the declared order are proved; the full iff with the greedy allow_missing rule and the ordered deserialize walk are differential only",
+        "error KIND exactness is proved for the missing-required-field case; for other rejections the theorems state acceptance iff (the differential run compares kinds)",
+    ],
     chunk=4000,
 )
 
@@ -108,4 +130,168 @@ PROPS["C18"] = dict(
     assumptions=["timestamps stay below i64::MAX (no overflow of last + 1)", "multi-thread correspondence is membership: the observed per-thread value lists must be producible by some interleaving of the model"],
     partial=["explicit_timestamp_wins is proved on the model; its tie to connection.rs is by the mock-node end-to-end run (C07/C14 harness), not by the hook-level check"],
     chunk=400,
+)
+
+
+def _c06_out_kind(o):
+    if o.startswith("A="):
+        w = o.split(" ")
+        n = 0 if w[0] == "A=-" else len(w[0].split(","))
+        r = w[2][2:]
+        r = "err:last" if r.startswith("err:last") else r.split(":")[0] if r.startswith(("ok", "ignored")) else r
+        return "run attempts=%d %s" % (n, r)
+    last = o.split(" ")[-1] if o else ""
+    return "dec last=" + last.split(":")[0]
+
+
+PROPS["C06"] = dict(
+    level_text="Theorems (Props/C06.lean) prove, for every plan (targets with or without a connection), every history of per-attempt outcomes of any length (every RequestAttemptError / DbError variant with arbitrary field values), the idempotence flag, the initial consistency and each of the three built-in retry policies: a request not marked idempotent gets attempt k+1 only if attempt k failed with unavailable / bootstrapping / no free stream id / read timeout (never after a broken connection, overloaded / server / truncate error or write timeout); the default policy makes at most one attempt at serial consistency; attempts <= plan length + 2 / 1 / 0 same-node retries (so the loop terminates: the model's fuel is proved never exhausted); the fiber sends exactly 1 + (number of retry decisions) attempts unless the plan ran out, on the target and at the consistency the decision named; fallthrough sends one attempt. The models are tied to retry/*.rs and execution.rs by a differential run (exhaustive decision tables over all reachable session states + the real run_request_no_side_effects over synthetic targets) with an oracle written from the property text.",
+    level_note="Trusted: Lean kernel + {propext, Classical.choice, Quot.sound}; hand-written models Model/Retry.lean, Model/Exec.lean (tie = differential harness through the cfg(scylla_verif) pass-throughs request_info / run_request). The transparent re-prepare inside one attempt is C14, speculative fibers are C13.",
+    lean_modules=["ScyllaVerif.Props.C06"],
+    rule="case = (dec: policy, idempotence, history of (consistency, error) fed to one retry session) or (run: policy, idempotence, initial consistency, plan, scripted outcomes); distinct case lines whose implementation output contains a retry/ignore decision or at least one attempt count as non-trivial",
+    trivial=lambda c, o: o in ("-", "bad-case") or o.startswith("A=- "),
+    out_kind=_c06_out_kind,
+    trusted=[
+        "Model/Retry.lean transcribes default.rs:57-170, downgrading_consistency.rs:54-214, fallthrough.rs:30-32 (i32 fields as Int: only compared, never computed with); Model/Exec.lean transcribes execution.rs:525-650 (one fiber; labelled continue/break as recursion on (rest of plan, same target))",
+        "the hook's synthetic targets either always or never yield a connection; a target whose pool breaks between two same-target attempts is outside the correspondence (the model treats it like the code: next target, nothing sent)",
+        "run_request_once is scripted: the k-th call returns the k-th scripted outcome; what an attempt does on the wire (incl. the re-prepare after UNPREPARED) is C14's subject",
+    ],
+    assumptions=[
+        "no speculative execution policy (single fiber); no client-side request timeout (the timeout only cuts a history short)",
+        "the retry policy is one of DefaultRetryPolicy, DowngradingConsistencyRetryPolicy, FallthroughRetryPolicy",
+    ],
+    partial=[],
+    shrink=dict(head_words=3, sep=";"),
+    chunk=6000,
+)
+
+
+def _c15_out_kind(o):
+    if o.startswith(("ok ", "err ", "absent")):
+        return "payload " + " ".join(o.split(" ")[:2])
+    if o and o[0].isdigit():
+        return "exh digest"
+    if "panic" in o:
+        return "tab with panic (ill-formed insert)"
+    return "tab" if ";" in o or o in ("n", "a") else o.split(" ", 1)[0]
+
+
+PROPS["C15"] = dict(
+    level_text="Theorems (Props/C15.lean) prove, for every history of inserts and maintenance steps of any length over unbounded tokens: the tablet list stays sorted with prev.last < next.first and first <= last (so the standard library's binary search - modelled loop by loop - is applied to a partitioned list: its precondition is a lemma, not an assumption); tablet_for_token answers exactly the latest insert covering the token unless a later insert overlapped it or maintenance discarded it (refinement to a history-based spec; never a stale answer); an insert removes exactly the overlapping tablets; per-datacenter replicas are the order-preserving filter of the full replica list; an accepted payload (a, b] becomes [a+1, b] with a < b and is rejected iff b <= a. The model is tied to tablets.rs by a differential run (exhaustive histories over a 6-token universe, long random histories over full i64, maintenance, TabletsInfo, payload bytes) with a brute-force history shadow as oracle.",
+    level_note="Trusted: Lean kernel + {propext, Classical.choice, Quot.sound}; hand-written model Model/Tablets.lean (tie = differential harness through the cfg(scylla_verif) pass-through VerifTablets / raw_tablet_from_payload); Arc<Node> identity modelled by a generation counter; HashMaps as association lists (only looked up by key, dumps sorted).",
+    lean_modules=["ScyllaVerif.Props.C15"],
+    rule="case = one history (tab), one payload cell (payload) or one exhaustive subtree (exh); distinct case lines whose implementation output contains at least one answered lookup / non-empty dump / accepted-or-rejected payload / visited history count as non-trivial",
+    trivial=lambda c, o: o in ("-", "bad-case", "absent") or (c.startswith("tab ") and ":" not in o),
+    out_kind=_c15_out_kind,
+    trusted=[
+        "Model/Tablets.lean transcribes tablets.rs:66-122 (payload), 135-169, 252-324, 369-469, 523-538, 598-662 and core::slice::binary_search_by/partition_point of the toolchain's std (1.95: fixed-iteration base/size loop)",
+        "Vec::drain(left..right) with left > right panics before mutating (only reachable with an ill-formed tablet first > last, which from_custom_payload never produces); the model's add returns `none` there and the driver prints `panic`",
+        "the node set / keyspace list handed to maintenance are explicit arguments (what ClusterState computes from old/new known_nodes is cluster/state.rs:375-405, outside this model)",
+    ],
+    assumptions=[
+        "every inserted tablet has first <= last (proved for everything from_custom_payload accepts: payload_range); tokens are unbounded integers in the theorems (the code compares i64 only, the +1 overflow is excluded by payload_range)",
+    ],
+    partial=[],
+    shrink=dict(head_words=1, sep=";"),
+    chunk=1500,
+)
+
+
+def _c13_out_kind(o):
+    if o in ("true", "false", "HANG", "PANIC", "bad-case"):
+        return o
+    w = o.split(" ")
+    if o.startswith("starts="):
+        n = w[0].count(",") + 1
+        res = w[2].split(":")[0].replace("res=", "")
+        return "spec started=%d %s" % (n, res)
+    if o.startswith("att="):
+        n = 0 if w[0] == "att=-" else w[0].count(",") + 1
+        res = w[1].split(":")[0].replace("res=", "")
+        return "gate attempts=%s %s %s" % (n if n < 4 else "4+", res, w[3])
+    return w[0]
+
+
+PROPS["C13"] = dict(
+    level_text="WORK IN PROGRESS",
+    level_note="WORK IN PROGRESS",
+    lean_modules=["ScyllaVerif.Props.C13"],
+    rule="case = one classification query (ign), one scripted schedule of synthetic executions through speculative_execution::execute (spec), or one scripted plan through run_request_no_side_effects (gate); every distinct case line counts (each returns a value, an error kind or HANG)",
+    trivial=lambda c, o: o in ("bad-case",),
+    out_kind=_c13_out_kind,
+    trusted=[],
+    assumptions=[],
+    partial=[],
+    shrink=dict(head_words=3, sep=" "),
+    chunk=6000,
+)
+
+PROPS["C08"] = dict(
+    level_text="Theorems (Props/C08.lean) about a total Lean model of the response decoders (primitive readers, frame header, body extensions, every response kind, result/prepared metadata, binary and custom-string column type parsers, raw rows): every decoder terminates with ok or err (no other outcome exists), requested allocation is proportional to the input, recursion depth is bounded, well-formed responses round-trip, truncated primitives are errors. The model is tied to the code by a differential run over well-formed frames of every kind, all their truncation points, field-aware mutations, deep nesting, custom type strings and random bytes, with a model-independent oracle (panic, hang watchdog, counting allocator, process death, well-formed frame decodes to what was encoded).",
+    level_note="Trusted: Lean kernel + {propext, Classical.choice, Quot.sound}; hand-written model (tie = differential harness on the public API of scylla-cql). LZ4/Snappy are external crates: the decompressed body is a parameter of the model (handed over by the harness). Typed column VALUE decoding is C01's model: here it is only driven for the crash/hang/allocation oracle. Not claimed: read_response_frame reserving the header-announced length (frames announcing > 1 MiB more than is present are not handed to it); custom type strings with non-ASCII characters are not modelled (implementation still run under the oracle).",
+    lean_modules=["ScyllaVerif.Props.C08"],
+    rule="case = (features, cached-metadata flag, negotiated compression, frame bytes) or (primitive reader, bytes); distinct case lines whose implementation output is not a header-level error count as non-trivial",
+    trivial=lambda c, o: o.startswith("err hdr."),
+    out_kind=lambda o: (lambda w: ("err " + ".".join(w[w.index("err") + 1].split(".")[:2]) if "err" in w else next((x for x in w if x.isupper() or x in ("ok",)), w[0] if w else "")))(o.split(" ")[:12]) if o else "",
+    chunk=2500,
+    trusted=[
+        "Model/ReadPrim.lean, TypeParser.lean, Response.lean, FrameHdr.lean transcribe scylla-cql(-core) frame/types.rs, frame/mod.rs, response/{mod,result,event,supported,authenticate,custom_type_parser}.rs, response/error.rs, deserialize/{result,row}.rs (raw cells only)",
+        "UTF-8 validation: Lean's ByteArray.validateUTF8 stands for str::from_utf8 (validated differentially on boundary strings); Uuid::try_parse modelled from the uuid crate's parser",
+        "LZ4/Snappy decompression is a parameter of the model (the harness hands the decompressed body over); only the size guard in front of LZ4 is modelled",
+    ],
+    assumptions=[
+        "frames whose header announces more than 1 MiB beyond the bytes present are not handed to read_response_frame (its up-front reservation is the driver's own TODO, outside C08)",
+        "rows of a result with zero columns are iterated up to 1000 (each costs no input byte; rows_count is only bounded by i32::MAX)",
+    ],
+    partial=[],
+)
+
+PROPS["C01"] = dict(
+    level_text="Theorems (Props/C01.lean) prove, for every CQL type (natives, list/set/map, tuple, UDT, fixed- and variable-width vector, arbitrarily nested), every value and every output buffer, that the placeholder/back-patch serializer (encImpl) appends exactly the bytes of the CQL v4 definition length++content (encSpec) and fails with the same error kind; that null/unset/empty cells are ff ff ff ff / ff ff ff fe / 00 00 00 00; that content above i32::MAX bytes is SizeOverflow; that zig-zag + vint round-trip for every i64 and every continuation; and the round trip decVal(encSpec v) = pad v on the decidable domain wfVal. The model is tied to serialize/value.rs, writers.rs, deserialize/value.rs, frame_slice.rs, frame/types.rs by a differential run (dynamic CqlValue over all types, ~60 typed Rust carriers, malformed decoder input) with an oracle that is independent of the model (own protocol encoder + decode(encode v) == pad v).",
+    level_note="Trusted: Lean kernel + {propext, Classical.choice, Quot.sound}; hand-written models Model/Vint.lean, Model/Cql.lean, Model/Codec.lean (tie = differential harness on the public API of scylla-cql-core, no hook). UTF-8 validity is a parameter `u` of the decoder model (the driver uses Lean's ByteArray.validateUTF8). Four shapes on which the current tree violates the round trip are known findings F1, F2, F8, F9 (counterexample theorems + corpus witnesses).",
+    lean_modules=["ScyllaVerif.Props.C01"],
+    rule="case = (kind dyn|carrier|carrierset|dec, CQL type, value or cell bytes); distinct case lines whose implementation output is not an error line count as non-trivial",
+    trivial=lambda c, o: o.startswith("err ") or o == "bad-case",
+    out_kind=lambda o: ("encode-" + o.split(" ")[1]) if o.startswith("err ") else ("decode-" + o.split(" -> err ")[1] if " -> err " in o else ("roundtrip-ok" if " -> " in o else ("cell" if o[:1] in "0123456789abcdef" else o.split(" ")[0]))),
+    chunk=2500,
+    trusted=[
+        "Model/Codec.lean transcribes serialize/value.rs:93-706,750-1150, serialize/writers.rs:103-218, deserialize/value.rs:67-248,296-800,923-1593,1748-2092, deserialize/frame_slice.rs:151-195, frame/types.rs:174-218; Model/Vint.lean transcribes frame/types.rs:255-305",
+        "u64::leading_zeros modelled as 64 - bit length (Nat.log2); u8::leading_ones as a comparison chain proved equal to the bitwise count (leadingOnes8_spec)",
+        "error values are compared as kinds (innermost kind of the Rust error chain)",
+        "typed Rust carriers are tied by the differential run after embedding the Rust value into the model's CqlVal (harness/src/c01/carrier.rs); chrono/time/num-bigint/bigdecimal/secrecy carriers are not exercised (their crates are not dependencies of the harness)",
+    ],
+    assumptions=[
+        "round trip domain wfVal: value has the shape of the type; text is UTF-8, ascii is ASCII; time in 0..=86399999999999; varint has at least one byte; tuple/UDT types have at least one field, vector dimension > 0 (no such CQL types exist otherwise); UDT type field names distinct and every value field named in the type",
+        "cells above i32::MAX bytes are covered by theorems only (not by the differential run)",
+    ],
+    partial=[],
+)
+
+PROPS["C19"] = dict(
+    level_text="Theorems (Props/C19.lean, invariant in Proofs/MergeChannel.lean) prove, for EVERY interleaving of the atomic steps of Sender::modify / Drop for Sender / Receiver::recv / cancellation of a suspended recv / Drop for Receiver (a transition system with one program counter per endpoint, so also for two OS threads under sequential consistency): received ++ in-flight ++ slot = merged (each merged update in exactly one received value, in order, none lost or duplicated; received values non-empty); a parked consumer with a pending value or a dropped sender has been notified AND its waker woken, or the producer's next step is that notify_one (no lost wake-up, cancel/restart included; a cancelled notified wait re-stores the permit); recv returns None only at a step where the sender is dropped, the slot is empty and everything merged was already returned; modify observing receiver_dropped returns SendError without applying f, and nothing is ever applied afterwards; every MetadataUpdate::merge_* keeps all refresh reply channels (list equality) and the newest topology wins. The models are tied to merge_channel.rs / update.rs by a differential run: the real channel polled manually with a counting waker over all legal poll-granularity interleavings to depth 8 (quick) / 10 (thorough) plus long random ones, UpdateSlot op sequences, and a 2-thread stress run, with a model-independent oracle.",
+    level_note="Trusted: Lean kernel + {propext, Classical.choice, Quot.sound}; hand-written models Model/MergeChannel.lean, Model/MetaUpdate.lean (tie = differential harness through the cfg(scylla_verif) pass-throughs verif_hooks::merge_channel); the tokio::sync::Notify contract N1-N5 written out in Model/MergeChannel.lean (validated at poll granularity by the differential run incl. wake counts, not verified); sequential consistency of the flag atomics / the slot mutex / Notify. The differential run cannot interleave INSIDE modify/recv; that is covered by the theorems only and sampled by the stress run.",
+    lean_modules=["ScyllaVerif.Props.C19"],
+    rule="case = (chan: sequence of producer/consumer operations at poll granularity | slot: sequence of merge_* / take operations | stress: n merges on a second OS thread); distinct case lines with at least one received value, pending poll, or non-empty take count as non-trivial",
+    trivial=lambda c, o: not ("ready[" in o or "pending" in o or "full " in o or "partial " in o or o.startswith("received=")),
+    out_kind=lambda o: ("stress" if o.startswith("received=") else "bad-case" if o == "bad-case" else
+                        "chan:" + "+".join(k for k in ("ready[", "pending", "none:", "senderror", "cancelled", "rxdropped", "dropped:") if k in o).replace("[", "").replace(":", "")
+                        if (":" in o.split(";")[0] and "=" not in o.split(";")[0]) else
+                        "slot:" + "+".join(k for k in ("full ", "partial ", "none ") if k in o).replace(" ", "")),
+    trusted=[
+        "Model/MergeChannel.lean transcribes merge_channel.rs:45-54, 102-129, 149-182 (one atomic step per shared-memory access, in the code's order); Model/MetaUpdate.lean transcribes update.rs:74-85, 89-191, 258-265 and metadata/mod.rs:349-370 (Metadata/peer list abstracted to a topology tag, reply channel to the refresh id, HashMaps to association lists)",
+        "tokio::sync::Notify (tokio 1.53.1 notify.rs) contract N1-N5: one stored permit; notify_one unlinks+marks the registered waiter (waking its waker if it stored one) else sets the permit; enable() consumes the permit or registers without waker; poll: Done/notified -> Ready, else store waker, Pending; dropping a Waiting future unlinks it and, if it was notified by notify_one but never polled, re-stores the permit; each of these is one atomic step",
+        "sequential consistency: every access to slot (std Mutex), sender_dropped / receiver_dropped (Release/Acquire AtomicBool) and Notify is one indivisible step of an interleaving",
+        "only a suspended recv() future can be dropped (never polled, or parked at line 173); Drop for Receiver needs no recv future alive (the &mut borrow)",
+        "merge_client_routes_update / ClientRoutes::merge are modelled and covered by the theorems but have no pass-through, so they are not in the differential run",
+    ],
+    assumptions=[
+        "single producer, single consumer (both endpoints are !Clone and their methods take &mut self): at most one Notified waiter",
+        "the closure passed to modify does not panic and leaves the slot Some (true of the hook's push and of every MetadataUpdate::merge_*: merge_fills_slot); a closure leaving None is not modelled",
+        "no_lost_wakeup is a safety statement (notified and woken, or the notify is the producer's next step); that the runtime polls a woken task and that threads keep being scheduled is assumed",
+    ],
+    partial=[
+        "the differential run drives the channel at poll granularity only (it cannot preempt inside modify/recv); the finer interleavings are covered by the theorems under the Notify/SC assumptions and sampled by the 2-thread stress cases",
+        "end-to-end Session::refresh_metadata against a mock cluster (DESIGN X, thorough) is not part of this check",
+    ],
+    shrink=dict(head_words=1, sep=";"),
 )
